@@ -10,6 +10,7 @@ import (
 	"verifharness/checks/c01"
 	"verifharness/checks/c03"
 	"verifharness/checks/c04"
+	"verifharness/checks/c08"
 	"verifharness/core"
 )
 
@@ -22,6 +23,7 @@ var table = map[string]entry{
 	"C01": {"exploration", c01.Run},
 	"C03": {"fault_enumeration", c03.Run},
 	"C04": {"fault_enumeration", c04.Run},
+	"C08": {"exploration", c08.Run},
 }
 
 func main() {
